@@ -103,7 +103,7 @@ def tier_a_jobs(impl, scripts, aspects, workers_default=15, no_layout=False):
                 m = re.search(r'req=(\S*) chk=(\S+)', r)
                 reqs = [(int(x.split(':')[0]), int(x.split(':')[1]) & 1 == 1, int(x.split(':')[1]) & 2 == 2) for x in m.group(1).split(',') if x]
                 chk = set() if m.group(2) == '-' else set(int(x) for x in m.group(2).split(','))
-                jobs.append(dict(reqs=reqs, chk=chk, ran=False))
+                jobs.append(dict(reqs=reqs, chk=chk, ran=False, xodd='xodd=1' in r))
                 dirty[len(jobs) - 1] = set(); touched[len(jobs) - 1] = set()
             # ---- events that make entities dirty / chunks touched (C07, C11) ----
             def mark(h, cids, but=None):
@@ -175,6 +175,9 @@ def tier_a_jobs(impl, scripts, aspects, workers_default=15, no_layout=False):
                 matching = set(h for h, comps in hv.items() if required <= set(comps))
                 if jb.get('shared'):
                     matching = set(h for h in matching if hsh.get(h))
+                if jb.get('xodd'):
+                    # the job's own chunk filter (extraChunkFilterCheck) rejects version chunks with an odd index
+                    matching = set(h for h in matching if h in pos and (pos[h][1] // max(1, archs[pos[h][0]]['cs'])) % 2 == 0)
                 if 'visits' in aspects:
                     if len(set(hs)) != len(hs):
                         fail = ('visits', 'an entity was visited twice: %s' % sorted(h for h in set(hs) if hs.count(h) > 1)[:3])
